@@ -28,7 +28,9 @@ Local Open Scope Z_scope.
 (* ===================================================================================== *)
 (* scripts and observations                                                                *)
 
-Inductive lockkind := LFifo | LFifoMap | LCMap | LCtx | LOuter.
+Inductive lockkind := LFifo | LFifoMap | LCMap | LCtx | LOuter
+  | LOuterLong.   (* outer-cancel lock whose grace period is hours and is never waited for: no grace
+                     timer can have fired, the model gets no optional timer events *)
 
 Inductive sop :=
 | SLock (t : tid) (k : key) (c : Z)     (* exclusive acquisition of key k with context c *)
@@ -522,6 +524,13 @@ Definition model_agrees (c : case) : bool :=
           | Some (_ :: _) => true
           | _ => false
           end
+      | LOuterLong =>
+          match follow ostep (o_musts n) (fun _ => []) (o_fp n) (fun s _ op => o_api s op)
+                       (fun s => (map (o_stat s) ts, map (ores s) ts, Z.of_nat (length (rcs s)))) keys true (fun _ _ => true) [oinit 1] []
+                       (idle_stats n) ops obs with
+          | Some (_ :: _) => true
+          | _ => false
+          end
       end
   end.
 
@@ -540,14 +549,14 @@ Fixpoint oracle_steps (l : lockkind) (keys : list key) (ops : list sop) (obs : l
       let ctxs' := match op with
                    | SLock t _ c | SRLock t _ c =>
                        if so_skip o then ctxs
-                       else upd_nth (Z.to_nat t) (match l, op with LOuter, SLock _ _ _ => -1 | _, _ => c end) ctxs
+                       else upd_nth (Z.to_nat t) (match l, op with (LOuter | LOuterLong), SLock _ _ _ => -1 | _, _ => c end) ctxs
                    | _ => ctxs
                    end in
       excl_obs keys (so_st o)
       && (match l with LFifoMap => no_leak_obs keys (so_st o) (so_entries o) | _ => true end)
       && (match l with
           | LCtx => no_dead_waiter (so_st o) ctxs' done' && err_holds_nothing (so_st o) (so_res o)
-          | LOuter => err_holds_nothing (so_st o) (so_res o)
+          | LOuter | LOuterLong => err_holds_nothing (so_st o) (so_res o)
                       && (sd' || owned_entries_obs (so_st o) (so_entries o))
           | _ => true
           end)
@@ -585,7 +594,7 @@ Fixpoint last_two {A} (l : list A) : option (option A * A) :=
 Definition occ_explained (l : lockkind) (keys : list key) (ops : list sop) (obs : list sobs) : bool :=
   existsb (fun o => negb (excl_obs keys (so_st o))) obs
   || match l, last_two (combine ops obs) with
-     | LOuter, Some (Some (_, prev), (SShutdown, o)) =>
+     | (LOuter | LOuterLong), Some (Some (_, prev), (SShutdown, o)) =>
          negb (so_skip o)
          && existsb (fun x => match x with TWaitW _ => true | _ => false end) (so_st prev)
          && existsb (fun x => match x with THoldR _ => true | _ => false end) (so_st prev)
